@@ -55,6 +55,14 @@ TWsNeg ==
              /\ o.rxS /\ o.rxC                                    \* and a message each way arrives intact
              /\ o.closesC = 1 /\ o.closesS = 1
 
+\* a scripted client offering arbitrary subprotocol names to a real server
+TWsNegRaw ==
+  /\ Ev("ws_neg_raw") /\ UNCHANGED lk
+  /\ LET ch == WsChosenRaw(E.offers, ToSet(E.sl)) o == E.obs IN
+     /\ o.esc = ""
+     /\ IF ch = "" THEN o.attachedS = 0 /\ o.status # 101 /\ o.droppedS /\ o.closesS = 0
+        ELSE o.attachedS = 1 /\ o.status = 101 /\ o.subproto = "wamp.2." \o ch /\ o.serS = ch /\ o.binS = Binary(ch) /\ o.closesS = 1
+
 \* ---- message phase, a real RawSocket end against the scripted peer
 Half(ms, mr, op) == [on |-> TRUE, t |-> "half", maxSend |-> ms, maxRecv |-> mr, open |-> op]
 TLinkOpen ==
@@ -128,7 +136,7 @@ TStream == /\ Ev("stream") /\ UNCHANGED lk
            /\ E.obs.delivered = E.count /\ E.obs.intact
            /\ E.obs.opens = 1 /\ E.obs.closes = 1
 TScenario == Ev("scenario") /\ UNCHANGED lk          \* the script that produced the following events (for replay files)
-TNext == TLinkOpenFails \/ TScenario \/ TStream \/ TRsHs \/ TWsNeg \/ TLinkOpen \/ TLinkSend \/ TLinkRecv \/ TLinkInject \/ TLinkEnd
+TNext == TWsNegRaw \/ TLinkOpenFails \/ TScenario \/ TStream \/ TRsHs \/ TWsNeg \/ TLinkOpen \/ TLinkSend \/ TLinkRecv \/ TLinkInject \/ TLinkEnd
          \/ TPairOpen \/ TPairSend \/ TPairRx \/ TPairInject \/ TPairLose \/ TPairEnd
 TraceSpec == TInit /\ [][TNext]_tvars
 Progress == TLCSet(tid, IF TLCGet(tid) < l THEN l ELSE TLCGet(tid))
